@@ -79,8 +79,21 @@ func c19Pair(e *Env) {
 			assume[k] = true
 		}
 		starts, finishes := 0, 0
+		seenSite := map[*ast.CallExpr]bool{}
+		isTraceCall := func(f *types.Func) bool {
+			return esp.Is(f, pkgTracer, "Controller", "DoStart") || esp.Is(f, pkgTracer, "Controller", "DoFinish")
+		}
 		rl := &esp.Rule{Name: rule, Init: "idle", Assume: assume,
+			Inline: inlineWhen(fi.Pkg.TypesInfo, isTraceCall, nil),
 			Call: func(c *esp.Ctx, call *ast.CallExpr, f *types.Func) {
+				if isTraceCall(f) && !seenSite[call] {
+					seenSite[call] = true
+					if f.Name() == "DoStart" {
+						starts++
+					} else {
+						finishes++
+					}
+				}
 				switch {
 				case esp.Is(f, pkgTracer, "Controller", "DoStart"):
 					if c.S.TS != "idle" {
@@ -100,18 +113,6 @@ func c19Pair(e *Env) {
 				}
 			},
 		}
-		ast.Inspect(fi.Decl, func(n ast.Node) bool {
-			if c, ok := n.(*ast.CallExpr); ok {
-				f := calleeOf(fi.Pkg.TypesInfo, c)
-				if esp.Is(f, pkgTracer, "Controller", "DoStart") {
-					starts++
-				}
-				if esp.Is(f, pkgTracer, "Controller", "DoFinish") {
-					finishes++
-				}
-			}
-			return true
-		})
 		ex := esp.New(w, fi, rl)
 		viol := ex.Run(fi)
 		r.Unit("%s: %s — %d DoStart / %d DoFinish sites, %d states explored, %d exit states, assumed %v", rule, fname, starts, finishes, ex.Steps, ex.Exits, keys(assume))
@@ -221,6 +222,10 @@ func c19Stages(e *Env) {
 			c.S.TS = s.String()
 		}
 		rl := &esp.Rule{Name: rule, Init: stageState{pair: "idle"}.String(), Assume: assume,
+			Inline: inlineWhen(info, func(f *types.Func) bool {
+				return esp.Is(f, pkgTracer, "Controller", "DoStart") || esp.Is(f, pkgTracer, "Controller", "DoFinish") ||
+					esp.Is(f, pkgIStats, "", "Record") || isStackMethod(f, "push") || isStackMethod(f, "pop")
+			}, nil),
 			FuncLit: func(c *esp.Ctx, fl *ast.FuncLit) {
 				// closure that records a stage finish
 				ast.Inspect(fl.Body, func(n ast.Node) bool {
